@@ -83,6 +83,7 @@ type runStat struct {
 	HookReads     int      `json:"steppedSubscriptionReads"`
 	Stalls        int      `json:"subscriptionStalls"`
 	Plants        int      `json:"plantedIndexKeys"`
+	LateFirst     int      `json:"lookedUpBeforeLateInclusion"`
 	Subs          int      `json:"subscriptions"`
 	SubMsgs       int      `json:"subscriptionMessages"`
 	SubObsolete   int      `json:"subscriptionObsolete"`
@@ -90,14 +91,15 @@ type runStat struct {
 }
 
 type txr struct {
-	tx    *tx.Transaction
-	name  string
-	ref   uint32
-	exp   uint32
-	dep   *txr
-	tagok bool
-	incl  int
-	found [2]bool // found==true through recent path / indexed path
+	tx       *tx.Transaction
+	name     string
+	ref      uint32
+	exp      uint32
+	dep      *txr
+	tagok    bool
+	incl     int
+	lateOnly bool
+	found    [2]bool // found==true through recent path / indexed path
 }
 
 type blk struct {
@@ -963,6 +965,8 @@ func (r *run) long() {
 			dep = pool[r.rng.Intn(len(pool))]
 		}
 		pool = append(pool, r.newTx(ref, exp, dep, true))
+		// every fourth never-expiring tx is kept out of the early blocks: absent from the whole store until its late inclusion
+		pool[i].lateOnly = i%4 == 3 && exp == 1000 && dep == nil
 	}
 	tips := map[string]*blk{"trunk": r.blocks[0]}
 	include := func(head *blk, late bool) ([]*txr, []bool) {
@@ -979,6 +983,9 @@ func (r *run) long() {
 			}
 			if late != (num >= t.ref+100) {
 				continue
+			}
+			if t.lateOnly && num < t.ref+101 {
+				continue // its first inclusion anywhere comes after it was looked up through the index path while absent
 			}
 			if t.dep != nil {
 				ok := false
@@ -1010,9 +1017,24 @@ func (r *run) long() {
 			txs, revs = include(head, late)
 		}
 		asBest := head == r.best || head.num+1 > r.best.num || (head.num+1 == r.best.num && r.rng.Intn(2) == 0)
+		if late && len(txs) > 0 {
+			// looked up through the index path BEFORE the (late) inclusion ...
+			r.qLookup(head, txs)
+			r.st.LateFirst += len(txs)
+		}
 		n := r.addBlock(head, txs, revs, asBest)
 		if n == nil {
 			return nil
+		}
+		if late && len(txs) > 0 {
+			// ... and again right after it, from the new block and from the other tips: same Repository object, no re-open
+			// in between - a lookup must not change a later lookup's answer
+			r.qLookup(n, txs)
+			for _, k := range []string{"trunk", "side", "short"} {
+				if b, ok := tips[k]; ok && k != which {
+					r.qLookup(b, txs)
+				}
+			}
 		}
 		tips[which] = n
 		return n
